@@ -564,6 +564,14 @@ def _child(case: dict[str, Any], d: Path) -> None:
         os._exit(0)
 
 
+class ChildDied(Exception):
+    """the forked process running the command under test was killed by a signal (14 = the 90 s watchdog: it hung)"""
+
+    def __init__(self, case: dict[str, Any], status: int, err: str) -> None:
+        super().__init__(f"child for {case_label(case)} ended with wait status {status}")
+        self.case, self.status, self.err = case, status, err
+
+
 def run_child(case: dict[str, Any], d: Path) -> dict[str, Any]:
     d.mkdir(parents=True)
     sys.stdout.flush()
@@ -575,6 +583,8 @@ def run_child(case: dict[str, Any], d: Path) -> dict[str, Any]:
     _, status = os.waitpid(pid, 0)
     if status != 0 or not (d / "obs.json").exists():
         err = (d / "stderr.txt").read_text()[-2000:] if (d / "stderr.txt").exists() else ""
+        if os.WIFSIGNALED(status) and not (d / "obs.json").exists():
+            raise ChildDied(case, status, err)  # the code under test hung or crashed the interpreter: a verdict, not a harness fault
         raise RuntimeError(f"child for {case_label(case)} ended with wait status {status}\n{err}")
     obs: dict[str, Any] = json.loads((d / "obs.json").read_text())
     if obs.get("harness_error"):
@@ -1281,9 +1291,24 @@ def run_item(item: tuple[Any, ...]) -> Result:
             run_rerun(item, res)
         else:
             raise RuntimeError(f"unknown item {item!r}")
+    except ChildDied as e:
+        _child_died(res, e)
     finally:
         shutil.rmtree(_workdir(), ignore_errors=True)
     return res
+
+
+def _child_died(res: Result, e: ChildDied) -> None:
+    sig = os.WTERMSIG(e.status)
+    what = "hung (killed by the 90 s watchdog)" if sig == signal.SIGALRM else f"was killed by signal {sig}"
+    c = e.case
+    tail = " | ".join(x for x in e.err.strip().splitlines()[-3:])[:300]
+    res.count("evaluations")
+    res.violate(
+        f"C15|process-{'hung' if sig == signal.SIGALRM else 'killed'}|exit={c['kind']}|point={c['point']}{'|nested' if c.get('nest') else ''}",
+        f"the process running the command {what}: no exit code, nothing could be observed; last stderr: {tail} [{case_label(c)}]",
+        {"case": c},
+    )
 
 
 def replay(doc: dict[str, Any]) -> Result:
@@ -1302,6 +1327,8 @@ def replay(doc: dict[str, Any]) -> Result:
                 run_group(item, res, verbose=True, only=(hv,) if hv in ("off", "ok") else ("ok", hv))
         else:
             run_item(tuple(doc["item"]))
+    except ChildDied as e:
+        _child_died(res, e)
     finally:
         shutil.rmtree(_workdir(), ignore_errors=True)
     return res
